@@ -197,11 +197,22 @@ func c12case(s *Sexp) string {
 		if r == nil {
 			return "nil"
 		}
-		as := make([]string, 3)
+		as := make([]string, 4)
 		var t0 *tyErr0
 		var t1 *tyErr1
 		var t2 *tyErr2
-		as[0], as[1], as[2] = "-", "-", "-"
+		as[0], as[1], as[2], as[3] = "-", "-", "-", "-"
+		var ce ers.Error
+		if errors.As(r, &ce) {
+			switch ce {
+			case ers.ErrRecoveredPanic:
+				as[3] = "1000"
+			case ers.ErrInvariantViolation:
+				as[3] = "1001"
+			default:
+				as[3] = strings.TrimPrefix(string(ce), "L") // the constant leaves are ers.Error("L<id>")
+			}
+		}
 		if errors.As(r, &t0) {
 			as[0] = fmt.Sprint(t0.id)
 		}
